@@ -35,6 +35,7 @@ type Scenario struct {
 	ThoroughBound int
 	Horizon       int
 	Bg            []string
+	BgTimers      []string
 	// Body runs as task 0 on a fresh fixture it creates itself.
 	Body func()
 	// Invariant (optional) is evaluated after every scheduler step while all tasks are parked.
@@ -109,7 +110,7 @@ func (r *result) merge(o *result) {
 }
 
 func opts(s *Scenario, labels bool) vsched.Options {
-	return vsched.Options{Horizon: s.Horizon, Bg: s.Bg, Invariant: s.Invariant, Labels: labels}
+	return vsched.Options{Horizon: s.Horizon, Bg: s.Bg, BgTimers: s.BgTimers, Invariant: s.Invariant, Labels: labels}
 }
 
 func hashStr(s string) uint64 {
@@ -148,7 +149,7 @@ func judge(s *Scenario, o *vsched.Outcome, used int, res *result) {
 	ok := outcomeKey(s, o)
 	h := hashStr(ok)
 	if _, seen := res.Outcomes[h]; !seen {
-		if len(res.Outcomes) < 4 {
+		if len(res.Outcomes) < 4 || os.Getenv("VEXPLORE_DUMP") != "" {
 			res.Outcomes[h] = vcommon.Short(ok, 600)
 		} else {
 			res.Outcomes[h] = ""
@@ -505,8 +506,8 @@ func Main(id string, scenarios []*Scenario, assumptions []string) {
 		// determinism: the default schedule run twice must give identical observations and points
 		o1 := vsched.RunOnce(nil, s.Body, opts(s, false))
 		o2 := vsched.RunOnce(nil, s.Body, opts(s, false))
-		if strings.Join(o1.Trace, "|") != strings.Join(o2.Trace, "|") || fmt.Sprint(o1.Alts) != fmt.Sprint(o2.Alts) || o1.Failure != o2.Failure {
-			vcommon.Harness("nondeterministic: scenario %s gives different observations for the same schedule:\n%v\n%v\n%v\n%v", s.Name, o1.Trace, o2.Trace, o1.Alts, o2.Alts)
+		if strings.Join(o1.Trace, "|") != strings.Join(o2.Trace, "|") || fmt.Sprint(o1.Alts) != fmt.Sprint(o2.Alts) || firstLine(o1.Failure) != firstLine(o2.Failure) {
+			vcommon.Harness("nondeterministic: scenario %s gives different observations for the same schedule:\n%v\n%v\n%v\n%v\nfailure1=%q\nfailure2=%q", s.Name, o1.Trace, o2.Trace, o1.Alts, o2.Alts, o1.Failure, o2.Failure)
 		}
 		var final *result
 		completed := -1
@@ -546,6 +547,14 @@ func Main(id string, scenarios []*Scenario, assumptions []string) {
 			if sample != "" {
 				r.Sample(map[string]any{"scenario": s.Name, "outcome_trace": sample})
 			}
+		}
+		if d := os.Getenv("VEXPLORE_DUMP"); d != "" {
+			var all []string
+			for _, t := range final.Outcomes {
+				all = append(all, t)
+			}
+			sort.Strings(all)
+			os.WriteFile(d+"."+s.Name, []byte(strings.Join(all, "\n")+"\n"), 0o644)
 		}
 		hist := map[string]int64{}
 		for k, v := range final.Hist {
